@@ -242,6 +242,19 @@ def handle (j : Json) : Json :=
           | .crash x => Json.mkObj (([("kind", Json.str "crash"), ("exc", Json.str x)] : List (String × Json)) ++ common)
           | .oom w => Json.mkObj (([("kind", Json.str "oom"), ("why", Json.str w)] : List (String × Json)) ++ common)
         (cfs', outs ++ [r])
+      | some "new" =>
+        -- `new NAME`: `dir` = the folder the project goes to, `exists` = whether it is there already, `canon` = the name as the
+        -- command canonicalises it (lower case, blanks to dashes)
+        let dir := pathOf ((getStr? inv "dir").getD "")
+        let ex := getBool inv "exists" false
+        let canon := ((getStr? inv "canon").getD "").toList
+        let cfs' := cliNew cfs dir ex canon
+        let created := (cfs'.files.filter fun kv => cfs.files.read kv.1 != some kv.2).map fun kv => Json.str (pathStr kv.1)
+        let cfg : Json := match cfs'.projCfgs.find? (·.1 == dir), cfs.projCfgs.find? (·.1 == dir) with
+          | some (_, c), none => jo c.toOpts
+          | _, _ => Json.null
+        (cfs', outs ++ [Json.mkObj [("kind", Json.str "new"), ("created", Json.arr created.toArray), ("cfgCreated", cfg),
+          ("mainText", match cfs'.files.read (dir ++ ["main.txt"]) with | some t => Json.str (strOf t) | none => Json.null)]])
       | some "write" =>
         -- the user edits the project file between two invocations (`cfg` = what the new text denotes)
         match inv.getObjVal? "cfg", getStr? inv "dir" with
